@@ -15,6 +15,10 @@ func fragEqual(a, b Frag) bool {
 	case Nth:
 		tb, ok := b.(Nth)
 		return vx.And(ok, ta == tb)
+	case *Filter:
+		// compared by its printed form and by evaluation (see VerifC14_Keys)
+		_, ok := b.(*Filter)
+		return ok
 	case Root:
 		_, ok := b.(Root)
 		return ok
@@ -76,7 +80,7 @@ func exprEqual(a, b Expr) bool {
 
 // roundTrip prints x (dot or bracket form), parses the text back and
 // asserts: parse succeeds, prints identically, is fragment-wise equal.
-func roundTrip(x Expr, bracket bool) {
+func roundTrip(x Expr, bracket bool) (y Expr, ok bool) {
 	var text string
 	pan := vx.Catch(func() {
 		if bracket {
@@ -87,19 +91,18 @@ func roundTrip(x Expr, bracket bool) {
 	})
 	vx.Assert("no-panic:String", !pan)
 	if pan {
-		return
+		return nil, false
 	}
-	var y Expr
 	var err error
 	pan = vx.Catch(func() { y, err = ParseString(text) })
 	vx.Assert("no-panic:Parse", !pan)
 	if pan {
-		return
+		return nil, false
 	}
 	vx.Observe("parse-err", err != nil)
 	vx.Assert("printed-form-parses", err == nil)
 	if err != nil {
-		return
+		return nil, false
 	}
 	vx.Assert("reparsed-equal", exprEqual(x, y))
 	var text2 string
@@ -109,13 +112,14 @@ func roundTrip(x Expr, bracket bool) {
 		text2 = y.String()
 	}
 	vx.Assert("prints-identically", len(text) == len(text2) && vx.StrEq(text, text2))
+	return y, true
 }
 
 // VerifC14_Keys: Child(k) for every key of <= K symbolic bytes in every
 // position (first, after root, after a child, after a descent, in a union),
 // dot and bracket printing.
 func VerifC14_Keys() {
-	pos := vx.Choose("pos", 5)
+	pos := vx.Choose("pos", 7)
 	bracket := vx.Choose("bracket", 2) == 1
 	n := vx.Choose("klen", vx.Param("K", 2)+1)
 	k := vx.String("key", n)
@@ -136,8 +140,27 @@ func VerifC14_Keys() {
 		x = R().D().C(k)
 	case 4:
 		x = R().U(k, "z")
+	case 5: // the key as a string constant of a filter
+		x = R().F(Eq(Get(A().C("a")), ConstString(k)))
+	case 6: // the key inside the sub-path of a filter
+		x = R().F(Eq(Get(A().C(k)), ConstInt(1)))
 	}
-	roundTrip(x, bracket)
+	y, ok := roundTrip(x, bracket)
+	if ok && pos >= 5 {
+		// the re-parsed filter selects what the original selects
+		var data any
+		if pos == 5 {
+			data = []any{map[string]any{"a": k}, map[string]any{"a": k + "~"}, map[string]any{"a": int64(1)}}
+		} else {
+			data = []any{map[string]any{k: int64(1)}, map[string]any{k + "~": int64(1)}, map[string]any{k: int64(2)}}
+		}
+		var n0, n1 int
+		pan := vx.Catch(func() { n0, n1 = len(x.Get(data)), len(y.Get(data)) })
+		vx.Assert("no-panic:Get", !pan)
+		if !pan {
+			vx.Assert("reparsed-filter-evaluates-identically", vx.And(n0 == 1, n1 == 1))
+		}
+	}
 	vx.Cover("done", true)
 }
 
